@@ -17,3 +17,14 @@ where
     };
     [row(&m.0, 0x1111_1111), row(&m.1, 0x2222_2222), row(&m.2, 0x4444_4444)]
 }
+
+// Stand-in for Matrix::invert in harnesses that observe only success/failure, error values or data independence:
+// inverting a matrix that is a symbolic selection among constants costs minutes and gigabytes per call.
+#[cfg(kani)]
+#[allow(dead_code, clippy::all, clippy::pedantic, clippy::nursery)]
+pub fn verif_stub_invert<T>(m: &Matrix<T>) -> Matrix<T>
+where
+    T: Copy + FastMulAdd + Mul<T, Output = T> + Div<T, Output = T> + Neg<Output = T>,
+{
+    m.clone()
+}
